@@ -28,9 +28,16 @@
 
    The body of the [with] block is modelled as [for c in chunks: f.write(c)]
    and the content to be saved is [concat chunks]; the code as it stands is
-   the instance [chunks = [blob]].  (At system-call level a Python-level write
-   is a sequence of appends, so "k bytes reached the file" also covers any
-   number of partial OS writes.)
+   the instance [chunks = [blob]].  The write and close steps are those of the
+   RAW file (where write(2)/close(2) happen): with the buffered file that
+   open(.., "wb") returns, the raw write of a small blob takes place when the
+   file is closed, immediately before the raw close -- the same sequence.  A
+   raw write that comes back SHORT without an error (k < len bytes accepted) and
+   is retried by the BufferedWriter is the chunking [firstn k c; skipn k c]; the
+   theorems hold for every chunking, so no extra decision is needed for it.
+   (What the model cannot express is code that ignores the count of a short raw
+   write: that is a different program, whose content-to-be-saved is no longer
+   the blob; the harness oracle decides that case.)
 
    Traces are kept newest-first ([ev :: tr]); the index of the next call is
    [length tr]. *)
